@@ -612,6 +612,68 @@ async fn main(plan: Plan) -> Outcome {
                 world::sleep_ns(100 * MS).await;
             }
             world::world().cluster.nodes[node].up = true;
+            world::sleep_ns(12 * SEC).await;
+        }
+    }
+    // (e2) An IDLE pool connection is closed by its node with FIN (nothing in flight on
+    // it: no request fails, but the connection is dead all the same). A second later the
+    // session must serve requests - through other connections or a replacement.
+    if plan.enumerated.is_none() && out.violations.is_empty() {
+        let victim: Option<ConnId> = {
+            let w = world::world();
+            w.conns
+                .iter()
+                .filter(|c| {
+                    !c.srv_closed
+                        && !c.client_closed
+                        && !c.s2c_stalled
+                        && c.cql.started
+                        && c.cql.registered.is_empty()
+                        && c.cql.outstanding.is_empty()
+                })
+                .map(|c| c.id)
+                .next()
+        };
+        if let Some(conn) = victim {
+            {
+                let mut w = world::world();
+                w.fault(Fault::Fin);
+                w.log(&format!("idle_fin conn={conn}"));
+                w.srv_close_now(conn, false);
+                w.probe("idle_fin");
+            }
+            world::sleep_ns(SEC).await;
+            for _ in 0..24 {
+                idx += 1;
+                let m = idx * 16;
+                let mut st = Statement::new(client::q_marker(m));
+                st.set_is_idempotent(true);
+                match tokio::time::timeout(Duration::from_secs(60), session.query_unpaged(st, ())).await {
+                    Ok(Ok(qr)) => {
+                        if let Err(e) = client::check_marker_rows(qr, m) {
+                            out.violation("c10.attribution", e);
+                        }
+                    }
+                    Ok(Err(e)) => {
+                        out.violation(
+                            "c10.dead_connection_still_used",
+                            format!(
+                                "request marker {m} failed ({}) 1+ s after an idle pool connection (conn {conn}) was closed by its node with FIN",
+                                client::short_err(&e)
+                            ),
+                        );
+                        break;
+                    }
+                    Err(_) => {
+                        out.violation(
+                            "c10.hang",
+                            format!("request marker {m} did not return within 60 virtual s; an idle pool connection (conn {conn}) had been closed by its node with FIN 1+ s before it was submitted"),
+                        );
+                        break;
+                    }
+                }
+                world::sleep_ns(100 * MS).await;
+            }
         }
     }
     // (c) a non-idempotent request that reached a node is never sent again.
